@@ -131,7 +131,8 @@ class Check(object):
         if built:
             audit = os.path.join(self.work(), 'Audit.lean')
             with open(audit, 'w') as f:
-                f.write('import %s\n' % module)
+                for mm in mods:
+                    f.write('import %s\n' % mm)
                 for t in theorems:
                     f.write('#print axioms %s\n' % t)
             rc, out = self.lake(['env', 'lean', audit])
